@@ -68,16 +68,16 @@ type sizeRec struct {
 
 func mkExec(s scen) *mc.Exec {
 	var (
-		seq                      int // harness event counter: a total order of the recorded events
-		pool                     *kitctx.Pool
-		ctxs                     []*cx
-		adds                     []*addRec
-		sizes                    []sizeRec
-		cancelStart, cancelEnd   int
-		cancelStartStep          int
-		harnessThreads           = map[string]bool{"main": true}
-		tick                     = func() int { seq++; return seq }
-		poolDone                 = func() bool { return pool.Err() != nil }
+		seq                    int // harness event counter: a total order of the recorded events
+		pool                   *kitctx.Pool
+		ctxs                   []*cx
+		adds                   []*addRec
+		sizes                  []sizeRec
+		cancelStart, cancelEnd int
+		cancelStartStep        int
+		harnessThreads         = map[string]bool{"main": true}
+		tick                   = func() int { seq++; return seq }
+		poolDone               = func() bool { return pool.Err() != nil }
 	)
 	body := func() {
 		bg := context.Background()
